@@ -2158,14 +2158,16 @@ function visitors.ForIn(context, node)
 end
 
 function visitors.Break(context, node)
-  if not context.scope:get_up_scope_of_kind('is_loop') then
+  local loopscope = context.scope:get_up_scope_of_any_kind('is_loop', 'is_function')
+  if not (loopscope and loopscope.is_loop) then
     node:raisef("`break` statement is not inside a loop")
   end
   node.done = true
 end
 
 function visitors.Continue(context, node)
-  if not context.scope:get_up_scope_of_kind('is_loop') then
+  local loopscope = context.scope:get_up_scope_of_any_kind('is_loop', 'is_function')
+  if not (loopscope and loopscope.is_loop) then
     node:raisef("`continue` statement is not inside a loop")
   end
   node.done = true
